@@ -73,6 +73,11 @@ JOps(s, c, r) ==
               IN Both(<<"Node.resize_outputs">> \o Rep(grow, "Value.init") \o Rep(grow, "Value.set_name"))
     [] c.op = "GAppend"    -> IF ok THEN Both(<<"Graph.append">> \o AdoptOps(s, c.n)) ELSE Tried(<<"Graph.append">>)
     [] c.op = "GExtend"    -> IF ok THEN Both(<<"Graph.extend">> \o AdoptAll(s, c.g, c.vs)) ELSE Tried(<<"Graph.extend">>)
+    \* the iterable builds c.i nodes (each: the fresh output, the node, the harness naming the output) INSIDE extend,
+    \* then raises: those constructions completed, extend itself did not
+    [] c.op = "GExtendGen" ->
+         LET inner == Flat(Rep(c.i, <<"Value.init", "Node.init", "Value.set_name">>))
+         IN [all |-> <<"Graph.extend">> \o inner, done |-> inner]
     [] c.op = "GInsertBefore" -> IF ok THEN Both(<<"Graph.insert_before">> \o AdoptAll(s, c.g, c.vs)) ELSE Tried(<<"Graph.insert_before">>)
     [] c.op = "GInsertAfter" -> IF ok THEN Both(<<"Graph.insert_after">> \o AdoptAll(s, c.g, c.vs)) ELSE Tried(<<"Graph.insert_after">>)
     [] c.op = "GRemove"    ->
